@@ -489,7 +489,7 @@ func (w *worker) runPath(fn *ssa.Function, it *workItem) {
 		return
 	}
 	ex.res.Paths++
-	if outcome == "ok" && w.m != nil && (len(ex.res.Samples) < ex.cfg.SampleMax) {
+	if outcome == "ok" && w.m != nil && (len(ex.res.Samples) < ex.cfg.SampleMax) && w.modelUsable() {
 		ex.res.Samples = append(ex.res.Samples, w.sample())
 	}
 }
@@ -834,6 +834,24 @@ func (w *worker) assertHolds(label string, c *Term) {
 		return
 	}
 	w.assume(c)
+}
+
+// modelUsable: the path's model can be turned into a replay vector without
+// asking the solver again (a model that travelled from another worker cannot
+// when there are string inputs: their inversion needs this worker's terms).
+func (w *worker) modelUsable() bool {
+	if w.m == nil {
+		return false
+	}
+	if w.m.home == w.s {
+		return true
+	}
+	for _, in := range w.inputs {
+		if in.w == wStr {
+			return false
+		}
+	}
+	return true
 }
 
 func (w *worker) currentModel() *model {
